@@ -343,7 +343,7 @@ def walk_shallow(node: ast.AST, skip_root_check: bool = True) -> Iterable[ast.AS
             continue
         first = False
         yield n
-        todo.extend(ast.iter_child_nodes(n))
+        todo.extend(reversed(list(ast.iter_child_nodes(n))))  # pre-order, source order
 
 
 def is_self_attr(e: ast.AST, attr: str = None) -> bool:
